@@ -371,6 +371,11 @@ func c03Ladders(d int) []string {
 		"<% " + rep("x = ", d) + "1 %>",
 		"<% " + rep("# c\n", d) + "1 %>",
 		"<% " + rep("# c\n\n", d) + "%>",
+		// an index after something that is itself such a path
+		"<%= " + rep("(", d) + "a" + rep(")[0].b", d) + " %>",
+		"<%= " + rep("f(", d) + "a" + rep(")[0].b", d) + " %>",
+		"<%= " + rep("[", d) + "a" + rep("][0].b", d) + " %>",
+		"<%= a" + rep("()[0].b", d) + " %>",
 	}
 	return out
 }
@@ -394,6 +399,8 @@ func c03DeepLadders(d int) []string {
 		"<% " + rep("# c\n", d) + "1 %>",
 		"<% " + rep("x = ", d) + "1 %>",
 		"<% " + rep("return ", d) + "1 %>",
+		rep("<% ", 2*d),
+		rep("<%", 2*d) + " 1 %>",
 	}
 }
 
@@ -460,7 +467,7 @@ func init() {
 		ID:    "C03",
 		Level: "exploration",
 		Rule: "inputs = (1) every sequence of 0..k lexemes (k=3 quick, 4 thorough) over a " + fmt.Sprint(len(c03Vocab)) +
-			"-lexeme vocabulary in 8 tag framings, enumerated exhaustively; (2) random token soup of 1..60 lexemes; (3) every truncation plus random byte mutations of all template literals found in /repo/**/*_test.go; (4) nesting ladders of 43 shapes to depth 256 (2048 thorough); (5) 14 of those shapes 1.5 million deep, parsed and, when a template comes back, executed (the worker stack limit is 256 MB, so unbounded recursion kills the worker and is reported as a process-level finding). " +
+			"-lexeme vocabulary in 8 tag framings, enumerated exhaustively; (2) random token soup of 1..60 lexemes; (3) every truncation plus random byte mutations of all template literals found in /repo/**/*_test.go; (4) nesting ladders of 47 shapes to depth 256 (2048 thorough); (5) 16 such shapes 1.5 million deep, parsed and, when a template comes back, executed (the worker stack limit is 256 MB, so unbounded recursion kills the worker and is reported as a process-level finding). " +
 			"Each input is given to parser.Parse (and plush.NewTemplate for 2-4) under recover with the H1 lexer-step budget. Every input reaches the parser, so non-trivial = distinct input string (enumerated inputs are distinct by construction, random ones are counted by hash).",
 		Assume:     []string{"H1 budget 64*len+4096 lexer steps is far above what a terminating parse needs (max observed ratio on the repo's templates: 1.6)", "inputs containing NUL are not generated (lexer EOF sentinel)"},
 		Batches:    batchesQT(32, 128),
